@@ -107,8 +107,8 @@ func (v *FnVC) execAppend(in *ssa.Call, st *State) {
 	ls, lt := SLen(s.T), SLen(t.T)
 	n := v.define("applen", Add(ls, lt))
 	inPlace := Le(n, SCap(s.T))
-	srcArr := Select(h, SRef(t.T))
-	dstArr := Select(h, SRef(s.T))
+	srcArr := v.readArray(st, et, SRef(t.T))
+	dstArr := v.readArray(st, et, SRef(s.T))
 
 	// in-place branch: elements written after the current length
 	var inArr *Term
@@ -126,21 +126,34 @@ func (v *FnVC) execAppend(in *ssa.Call, st *State) {
 		base := Add(SOff(s.T), ls)
 		v.assume(v.curGuard, Forall([]*Term{K}, Ite(And(Le(base, K), Lt(K, Add(base, lt))),
 			Eq(Select(inArr, K), Select(srcArr, Add(Sub(K, base), SOff(t.T)))),
-			Eq(Select(inArr, K), Select(dstArr, K))), []*Term{Select(inArr, K)}), "append-inplace")
+			Eq(Select(inArr, K), Select(dstArr, K))), []*Term{Select(inArr, K)}, []*Term{Select(dstArr, K)}), "append-inplace")
+		freshCounter++
+		J := Var(fmt.Sprintf("ap?%d", freshCounter), SInt)
+		v.assume(v.curGuard, Forall([]*Term{J}, Implies(And(Le(SOff(t.T), J), Lt(J, Add(SOff(t.T), lt))),
+			Eq(Select(inArr, Add(Sub(J, SOff(t.T)), base)), Select(srcArr, J))), []*Term{Select(srcArr, J)}), "append-inplace-src")
 	}
-	// growing branch: fresh array
+	// growing branch: fresh array. The fresh array keeps the slice's offset
+	// (offsets are unobservable in Go), so old and new contents are related
+	// at the same absolute indices.
 	newRef := v.define("ref_append", st.alloc)
 	newCap := v.fresh("appcap", SInt)
-	v.assume(v.curGuard, And(Ge(newCap, n), Le(newCap, BigLit(maxLenBig))), "append-cap")
+	v.assume(v.curGuard, And(Ge(newCap, n), Le(Add(SOff(s.T), newCap), BigLit(maxLenBig))), "append-cap")
 	var grArr *Term
 	grArr = v.fresh("app_gr", ArrSort(es))
 	{
 		freshCounter++
 		K := Var(fmt.Sprintf("ap?%d", freshCounter), SInt)
+		base := Add(SOff(s.T), ls)
 		body := And(
-			Implies(And(Le(IntLit(0), K), Lt(K, ls)), Eq(Select(grArr, K), Select(dstArr, Add(K, SOff(s.T))))),
-			Implies(And(Le(ls, K), Lt(K, n)), Eq(Select(grArr, K), Select(srcArr, Add(Sub(K, ls), SOff(t.T))))))
-		v.assume(v.curGuard, Forall([]*Term{K}, body, []*Term{Select(grArr, K)}), "append-grow")
+			Implies(And(Le(SOff(s.T), K), Lt(K, base)), Eq(Select(grArr, K), Select(dstArr, K))),
+			Implies(And(Le(base, K), Lt(K, Add(base, lt))), Eq(Select(grArr, K), Select(srcArr, Add(Sub(K, base), SOff(t.T))))))
+		v.assume(v.curGuard, Forall([]*Term{K}, body, []*Term{Select(grArr, K)}, []*Term{Select(dstArr, K)}), "append-grow")
+		if !small {
+			freshCounter++
+			J := Var(fmt.Sprintf("ap?%d", freshCounter), SInt)
+			v.assume(v.curGuard, Forall([]*Term{J}, Implies(And(Le(SOff(t.T), J), Lt(J, Add(SOff(t.T), lt))),
+				Eq(Select(grArr, Add(Sub(J, SOff(t.T)), base)), Select(srcArr, J))), []*Term{Select(srcArr, J)}), "append-grow-src")
+		}
 	}
 	// store-frame: the in-place write targets s's array
 	if !v.modAll {
@@ -153,7 +166,7 @@ func (v *FnVC) execAppend(in *ssa.Call, st *State) {
 		v.oblige("frame", fmt.Sprintf("store-frame#%d", v.ord("frame")), v.curGuard, Or(alts...), v.posOf(in.Pos()), "append in place writes memory allocated by this call or listed in modifies")
 	}
 	resIn := MkSlice(SRef(s.T), SOff(s.T), n, SCap(s.T))
-	resGr := MkSlice(newRef, IntLit(0), n, newCap)
+	resGr := MkSlice(newRef, SOff(s.T), n, newCap)
 	// Go: appending nothing to a nil slice returns it unchanged; in general when
 	// n <= cap the original array is reused.
 	res := v.define("append", Ite(inPlace, resIn, resGr))
@@ -170,14 +183,18 @@ func (v *FnVC) execCopy(in *ssa.Call, st *State) {
 	es := sortOf(et)
 	h, hname := v.sliceHeapTerm(st, et)
 	n := v.define("copyn", Ite(Le(SLen(d.T), SLen(s.T)), SLen(d.T), SLen(s.T)))
-	srcArr := Select(h, SRef(s.T))
-	dstArr := Select(h, SRef(d.T))
+	srcArr := v.readArray(st, et, SRef(s.T))
+	dstArr := v.readArray(st, et, SRef(d.T))
 	nArr := v.fresh("copy", ArrSort(es))
 	freshCounter++
 	K := Var(fmt.Sprintf("cp?%d", freshCounter), SInt)
 	v.assume(v.curGuard, Forall([]*Term{K}, Ite(And(Le(SOff(d.T), K), Lt(K, Add(SOff(d.T), n))),
 		Eq(Select(nArr, K), Select(srcArr, Add(Sub(K, SOff(d.T)), SOff(s.T)))),
-		Eq(Select(nArr, K), Select(dstArr, K))), []*Term{Select(nArr, K)}), "copy")
+		Eq(Select(nArr, K), Select(dstArr, K))), []*Term{Select(nArr, K)}, []*Term{Select(dstArr, K)}), "copy")
+	freshCounter++
+	J := Var(fmt.Sprintf("cp?%d", freshCounter), SInt)
+	v.assume(v.curGuard, Forall([]*Term{J}, Implies(And(Le(SOff(s.T), J), Lt(J, Add(SOff(s.T), n))),
+		Eq(Select(nArr, Add(Sub(J, SOff(s.T)), SOff(d.T))), Select(srcArr, J))), []*Term{Select(srcArr, J)}), "copy-src")
 	if !v.modAll {
 		alts := []*Term{Eq(n, IntLit(0)), Ge(SRef(d.T), v.entry.alloc)}
 		for _, m := range v.mods {
